@@ -72,10 +72,15 @@ class Tracker(Monitor):
             key = (inst.nick, inst.inc, app)
             old = self.stop_epoch.get(key)
             number = (old['n'] + 1) if old else 1
+            # what the plan is made of: the processes the instance sees running (or stopping) at that moment
             running = {}
-            for (nick, ns), st in self.truth.items():
-                if ns.split(':')[0] == app and (st in RUN_CODES or st == 40) and w.instances[nick].alive:
-                    running.setdefault(ns, set()).add(nick)
+            try:
+                for info in peek(w, inst.nick, 'supvisors.get_process_info', app + ':*'):
+                    ns = f"{info['application_name']}:{info['process_name']}"
+                    for identifier in info['identifiers']:
+                        running.setdefault(ns, set()).add(w.by_identifier.get(identifier))
+            except Fault:
+                pass
             if kind == 'process' and old and not old.get('closed'):
                 # a process-level stop joins the plan in progress, which is no longer a pure application stop
                 old['pure'] = False
